@@ -32,11 +32,11 @@ CHECKS = {
             TB + "Declined: waiting 'however long' as a temporal statement (no time-out exists: checked as a zero-count rule with a positive control)."),
     "C05": ("Constant table map/starmap/doublestarmap -> 0/1/2 -> star_function branch shapes (by constant propagation), iterable forwarded lazily to exactly one for-header, "
             "Semaphore(num_concurrent), acquire-before-start per iteration, end callback is the semaphore-releasing wrapper, release first/once in the wrapper, "
-            "who-may-release the map semaphore, skip-on-raise; HANDOFF shared (F1).",
+            "who-may-release the map semaphore, skip-on-raise; unique ids (id discipline shared with C11) and spawner-table integrity as premises; HANDOFF shared (F1).",
             "table agreement by constant propagation + iteration typestate + who-may tables", "5 C05",
             TB + "Declined: 'exactly num_concurrent running whenever idle' as a count. F1 shared (known finding)."),
     "C06": ("Two-phase cancel (no look-up or raising step reachable after a Task.cancel), look-up table decided by abstract interpretation over the four id states "
-            "(running/cancelled/ended/unknown -> return / AlreadyCancelled / AlreadyEnded / TaskNotFound<=InvalidTaskID), who-may-cancel table, cancelled tasks are exactly the looked-up list.",
+            "(running/cancelled/ended/unknown -> return / AlreadyCancelled / AlreadyEnded / TaskNotFound<=InvalidTaskID), who-may-cancel table, cancelled tasks are exactly the looked-up list; an id names one task (id discipline shared with C11).",
             "CFG reachability + abstract interpretation of the look-up over 4 cases + who-may-call", "5 C06",
             TB + "Declined: 'observes one CancelledError at its next suspension point' (Task semantics). F1 shared."),
     "C07": ("cancel_group validates first and raises only TaskGroupNotFound; cancel_all returns only with an empty table and hands every entry to the helper; spawners cancelled before "
@@ -54,7 +54,7 @@ CHECKS = {
             "path rule VALIDATE-FIRST + constant propagation + who-may-write", "5 C09", TB + "Declined: nothing structural."),
     "C10": ("Exactly one register add per started task, in the register filed under the task's group_name, same id as the running-registry key, one atomic segment; who-may add/remove; "
             "group-name wiring through all hops and return values; name templates by abstract string evaluation; generated names returned only after the membership test; "
-            "start counter incremented once per accepted call; get_group_ids unions, maps unknown names, mutates nothing.",
+            "start counter incremented once per accepted call; get_group_ids unions, maps unknown names, mutates nothing; spawner-table integrity (a cancelled group's spawners are found).",
             "abstract string evaluation + wiring + path counting", "5 C10", TB + "Declined: set equality of reported and observed ids at run time."),
     "C11": ("Who-may-write the id counter; read-then-increment in one atomic segment exactly once per start and never on a failing start; the same id is registry key, register member, "
             "wrapper argument, task name and return value; name templates; per-instance state; index from _add_pool; callback id by typestate.",
@@ -74,12 +74,12 @@ CHECKS = {
             "effect analysis (who writes the paths the getter reads) + VALIDATE-FIRST", "5 C15", TB + "F5a-c are recorded known findings; mixed arithmetic is inconclusive, not a violation."),
     "C16": ("Handshake sequence by completion-dominance (read, json, parser with the session's buffer and the client's width, add_subparsers, add_class_commands(run-time class), "
             "name + newline, drain); command surface (getmembers, '_' filter with public_only default True, function/property dispatch, dash names, member stored under CMD, help enabled); "
-            "TABLE(annotation kinds at run time vs what the converter does with them) over every public member of every pool class: finding F6.",
+            "EXECUTABLE (a required argument is filed under the parameter name the session looks up); TABLE(annotation kinds at run time vs what the converter does with them) over every public member of every pool class: finding F6.",
             "dominance on the CFG + producer/consumer table agreement (annotation kind vs converter domain)", "5 C16",
             TB + "Declined: the bytes on the wire; help text for every width (argparse run-time behaviour). F6 is a recorded known finding."),
     "C17": ("Dispatch structure of _exec_method_and_respond (self, positional kinds in signature order, *args after, rest by keyword, through return_or_exception), RESULT-USED at all "
             "three return_or_exception call sites with the reply forms ok-if-None-else-str / str, add_function_arg mapping incl. the bool-defaults-to-False table over the pool classes, "
-            "return_or_exception semantics (called once, awaited under the coroutine guard, Exception returned, nothing but cancellation escapes - call and await); TOKENS (what reaches parse_args is the line split at blanks, words unchanged); OK-CONSTANT (the reply for a None result is the decoded module constant whose value is the text 'ok'); OMIT-SELF (the omitted-parameter default names the receiver and nothing else); annotation table shared (F6).",
+            "return_or_exception semantics (called once, awaited under the coroutine guard, Exception returned, nothing but cancellation escapes - call and await); TOKENS (what reaches parse_args is the line split at blanks, words unchanged); OK-CONSTANT (the reply for a None result is the decoded module constant whose value is the text 'ok'); OMIT-SELF (the omitted-parameter default names the receiver and nothing else); CONVERSION-SITES (a type converter is installed only by add_function_arg from the parameter's own annotation; no argparse action is re-configured); annotation table shared (F6).",
             "syntax-directed structure rules + RESULT-USED data-flow + path counting", "5 C17",
             TB + "Declined: equality of effects for every argument value (translation over run-time values). F6 shared (known finding)."),
     "C18": ("HATCHES (all four argparse escape hatches overridden, no print/sys.std*/exit in parser, session, server; positive control in client), per-iteration protocol of listen by "
